@@ -53,3 +53,187 @@ func VH_C11_EncodeInt() {
 		vh.Assert(major == 1 && arg == ^uint64(n) && arg < 1<<63, "negative: major 1, value -1-arg")
 	}
 }
+
+// refItemLen walks one item (major types 0..5) with the reference head reader and returns its length.
+func refItemLen(b []byte) (int, bool) {
+	major, arg, used, ok := refHead(b)
+	if !ok {
+		return 0, false
+	}
+	switch major {
+	case 0, 1:
+		return used, true
+	case 2, 3:
+		if arg > uint64(len(b)-used) {
+			return 0, false
+		}
+		return used + int(arg), true
+	case 4, 5:
+		n := arg
+		if major == 5 {
+			n *= 2
+		}
+		pos := used
+		for i := uint64(0); i < n; i++ {
+			l, ok := refItemLen(b[pos:])
+			if !ok {
+				return 0, false
+			}
+			pos += l
+		}
+		return pos, true
+	}
+	return 0, false
+}
+
+// VH_C11_Strings: EncodeByteString / EncodeTextString with lengths from the CBOR length classes
+// {0,1,23,24,255,256,65535,65536} (marker bytes symbolic) and, for text, ALL strings of 0..4 arbitrary bytes:
+// the output is a shortest-form head of the right major type followed by exactly the content; EncodeTextString
+// refuses exactly the strings that are not well-formed UTF-8 (independent Unicode Table 3-7 predicate).
+func VH_C11_Strings() {
+	vh.MustReach("bytes", "text-ok", "text-refused")
+	var w vh.Sink
+	e := NewEncoder(&w)
+	if vh.Choose(2) == 0 {
+		lens := []int{0, 1, 23, 24, 255, 256, 65535, 65536}
+		n := lens[vh.Choose(len(lens))]
+		b := make([]byte, n)
+		if n > 0 {
+			b[0] = vh.Byte("first")
+			b[n-1] = vh.Byte("last")
+		}
+		vh.Assert(e.EncodeByteString(b) == nil, "EncodeByteString succeeds")
+		major, arg, used, ok := refHead(w.B)
+		vh.Assert(ok && major == 2 && arg == uint64(n) && refShortest(arg, used) && len(w.B) == used+n, "shortest head of type 2 with the length, then the content")
+		vh.Assert(string(w.B[used:]) == string(b), "content bytes unchanged")
+		vh.Reach("bytes")
+		return
+	}
+	s := vh.String("s", vh.Choose(5))
+	err := e.EncodeTextString(s)
+	valid := refUTF8([]byte(s))
+	vh.Assert((err == nil) == valid, "EncodeTextString refuses exactly the invalid UTF-8 strings")
+	if err == nil {
+		major, arg, used, ok := refHead(w.B)
+		vh.Assert(ok && major == 3 && arg == uint64(len(s)) && refShortest(arg, used) && string(w.B[used:]) == s, "shortest head of type 3, then the text")
+		vh.Reach("text-ok")
+	} else {
+		vh.Assert(len(w.B) == 0, "nothing is written for a refused string")
+		vh.Reach("text-refused")
+	}
+}
+
+// VH_C11_Maps: EncodeMap with 0..3 entries whose keys are SYMBOLIC byte or text strings of length 0..2 (mixed
+// major types; one optional 24-byte key straddling the 23/24 head boundary; in the quick tier maps of three entries
+// use one-byte byte-string keys) supplied in EVERY order, values
+// symbolic uints: the output is a map head with the entry count followed by the entries strictly ascending in
+// the bytewise order of their encoded keys, the same multiset as supplied, every item decodable by the
+// independent reader; ErrDuplicatedKey iff two encoded keys are equal.  Also array headers followed by nested
+// items decode item by item.
+func VH_C11_Maps() {
+	vh.MustReach("sorted", "duplicate")
+	n := vh.Choose(4)
+	var mes []*MapEntryEncoder
+	var keys [][]byte
+	for i := 0; i < n; i++ {
+		tag := []string{"k0", "k1", "k2"}[i]
+		small := n == 3 && vh.Tier() == 0 // quick tier: three entries only with one-byte byte-string keys (all 6 orders)
+		kind := 0
+		if !small {
+			kind = vh.Choose(3)
+		}
+		var kb []byte
+		switch kind {
+		case 0:
+			if small {
+				kb = vh.Bytes(tag, 1)
+			} else {
+				kb = vh.Bytes(tag, vh.Choose(3))
+			}
+		case 1:
+			// text key: ASCII letters so that it is valid UTF-8
+			kb = vh.Bytes(tag, vh.Choose(3))
+			for _, c := range kb {
+				vh.Assume(c < 0x80)
+			}
+		case 2:
+			kb = make([]byte, 24)
+			kb[23] = vh.Byte(tag + "x")
+		}
+		val := vh.Uint64([]string{"v0", "v1", "v2"}[i])
+		k := kb
+		text := kind == 1
+		mes = append(mes, GenerateMapEntry(func(keyE *Encoder, valueE *Encoder) {
+			if text {
+				keyE.EncodeTextString(string(k))
+			} else {
+				keyE.EncodeByteString(k)
+			}
+			valueE.EncodeUint(val)
+		}))
+		major := byte(2)
+		if text {
+			major = 3
+		}
+		var enc []byte
+		if len(k) < 24 {
+			enc = append([]byte{major<<5 | byte(len(k))}, k...)
+		} else {
+			enc = append([]byte{major<<5 | 24, byte(len(k))}, k...)
+		}
+		keys = append(keys, enc)
+	}
+	dup := false
+	for i := range keys {
+		for j := i + 1; j < len(keys); j++ {
+			if string(keys[i]) == string(keys[j]) {
+				dup = true
+			}
+		}
+	}
+	var w vh.Sink
+	err := NewEncoder(&w).EncodeMap(mes)
+	vh.Assert((err == ErrDuplicatedKey) == dup && (err == nil) == !dup, "ErrDuplicatedKey iff two encoded keys are equal")
+	if err != nil {
+		vh.Reach("duplicate")
+		return
+	}
+	major, arg, used, ok := refHead(w.B)
+	vh.Assert(ok && major == 5 && arg == uint64(n) && refShortest(arg, used), "map head with the entry count in shortest form")
+	total, ok := refItemLen(w.B)
+	vh.Assert(ok && total == len(w.B), "the output is exactly one well-formed map item")
+	if !ok {
+		return
+	}
+	// walk entries: keys strictly ascending, each key is one of the supplied ones
+	pos := used
+	var prev []byte
+	found := 0
+	for i := 0; i < n; i++ {
+		kl, ok := refItemLen(w.B[pos:])
+		vh.Assert(ok, "key decodes")
+		if !ok {
+			return
+		}
+		key := w.B[pos : pos+kl]
+		if i > 0 {
+			vh.Assert(refLess(prev, key), "entries strictly ascending by encoded key")
+		}
+		for _, s := range keys {
+			if string(s) == string(key) {
+				found++
+				break
+			}
+		}
+		prev = key
+		pos += kl
+		vl, ok := refItemLen(w.B[pos:])
+		vh.Assert(ok, "value decodes")
+		if !ok {
+			return
+		}
+		pos += vl
+	}
+	vh.Assert(found == n, "every emitted key is one of the supplied keys (same multiset)")
+	vh.Reach("sorted")
+}
